@@ -404,8 +404,35 @@ impl Report {
         if !self.counters.is_empty() {
             coverage.insert("counters".into(), json!(self.counters));
         }
-        for (k, v) in &self.tables {
-            coverage.insert(k.clone(), v.clone());
+        // Evidence files stay small enough to be read (and parsed) as a whole: arrays inside
+        // the tables are cut to a row limit that is halved until the tables fit in ~1 MB; what
+        // was cut is said in place.
+        fn shrink(v: &Value, limit: usize) -> Value {
+            match v {
+                Value::Array(a) if a.len() > limit => {
+                    let mut out: Vec<Value> = a.iter().take(limit).map(|x| shrink(x, limit)).collect();
+                    out.push(json!(format!("... {} more rows omitted from the evidence file", a.len() - limit)));
+                    Value::Array(out)
+                }
+                Value::Array(a) => Value::Array(a.iter().map(|x| shrink(x, limit)).collect()),
+                Value::Object(o) => Value::Object(o.iter().map(|(k, x)| (k.clone(), shrink(x, limit))).collect()),
+                other => other.clone(),
+            }
+        }
+        let mut limit = 250usize;
+        let tables: Map<String, Value> = loop {
+            let t: Map<String, Value> = self.tables.iter().map(|(k, v)| (k.clone(), shrink(v, limit))).collect();
+            let size: usize = t.values().map(|v| serde_json::to_string_pretty(v).map_or(0, |s| s.len())).sum();
+            if size <= 1_000_000 || limit <= 4 {
+                break t;
+            }
+            limit /= 2;
+        };
+        if limit < 250 {
+            coverage.insert("evidence_row_limit_applied".into(), json!(limit));
+        }
+        for (k, v) in tables {
+            coverage.insert(k, v);
         }
         coverage.insert("inconclusive".into(), json!(self.inconclusive));
         coverage.insert("known_findings_seen".into(), Value::Array(known_hits));
